@@ -161,8 +161,9 @@ class Oracle(object):
             self.resolve(b)
 
     # -- enumeration ----------------------------------------------------------------------
-    def add(self, id, kind, sc, exact, lo, hi, unv, comp, **kw):
+    def add(self, id, kind, sc, exact, lo, hi, unv, comp, node=None, **kw):
         b = B(id, kind, sc, exact, lo, hi, unv=unv, in_comp=bool(comp), **kw)
+        b.node = node
         b.cond = self._cond > 0
         self.bindings.append(b)
         if kind != 'comp' and kind != 'star':
@@ -180,7 +181,7 @@ class Oracle(object):
 
     def target(self, t, kind, sc, unv, comp, sub=''):
         if isinstance(t, ast.Name):
-            self.add(t.id, kind + sub, sc, (t.lineno, t.col_offset), t.lineno, t.lineno, unv, comp)
+            self.add(t.id, kind + sub, sc, (t.lineno, t.col_offset), t.lineno, t.lineno, unv, comp, node=t)
         elif isinstance(t, (ast.Tuple, ast.List)):
             for e in t.elts:
                 self.target(e, kind, sc, unv, comp, sub or ('-unpack' if kind == 'assign' else ''))
@@ -205,17 +206,17 @@ class Oracle(object):
 
     def arguments(self, a, inner, outer, unv, comp):
         for x in a.posonlyargs:
-            self.add(x.arg, 'param-posonly', inner, (x.lineno, x.col_offset), x.lineno, x.lineno, unv, comp)
+            self.add(x.arg, 'param-posonly', inner, (x.lineno, x.col_offset), x.lineno, x.lineno, unv, comp, node=x)
         for x in a.args:
-            self.add(x.arg, 'param', inner, (x.lineno, x.col_offset), x.lineno, x.lineno, unv, comp)
+            self.add(x.arg, 'param', inner, (x.lineno, x.col_offset), x.lineno, x.lineno, unv, comp, node=x)
         if a.vararg:
             x = a.vararg
-            self.add(x.arg, 'param-vararg', inner, (x.lineno, x.col_offset), x.lineno, x.lineno, unv, comp)
+            self.add(x.arg, 'param-vararg', inner, (x.lineno, x.col_offset), x.lineno, x.lineno, unv, comp, node=x)
         for x in a.kwonlyargs:
-            self.add(x.arg, 'param-kwonly', inner, (x.lineno, x.col_offset), x.lineno, x.lineno, unv, comp)
+            self.add(x.arg, 'param-kwonly', inner, (x.lineno, x.col_offset), x.lineno, x.lineno, unv, comp, node=x)
         if a.kwarg:
             x = a.kwarg
-            self.add(x.arg, 'param-kwarg', inner, (x.lineno, x.col_offset), x.lineno, x.lineno, unv, comp)
+            self.add(x.arg, 'param-kwarg', inner, (x.lineno, x.col_offset), x.lineno, x.lineno, unv, comp, node=x)
         # evaluated in the enclosing scope
         self.exprs(a.defaults, outer, unv, comp)
         self.exprs(a.kw_defaults, outer, unv or (inner.kind == 'lambda' and 'lambda-kw-default' or 'def-kw-default'), comp)
@@ -353,12 +354,16 @@ class Oracle(object):
             self.stmts(node.orelse, sc, unv, comp)
             self.stmts(node.finalbody, sc, unv, comp)
         elif T is ast.Delete:
+            def deltarget(t):
+                if isinstance(t, ast.Name):
+                    self.excluded_ids.add(t.id)
+                elif isinstance(t, (ast.Tuple, ast.List)):
+                    for x in t.elts:
+                        deltarget(x)
+                else:
+                    self.visit(t, sc, unv, comp)      # subscript / attribute: sub-expressions may bind
             for t in node.targets:
-                for n in ast.walk(t):
-                    if isinstance(n, ast.Name) and isinstance(n.ctx, ast.Del):
-                        self.excluded_ids.add(n.id)
-                    elif isinstance(n, ast.Name) and n.id == 'locals':
-                        sc.reads_locals = True
+                deltarget(t)
         elif T is ast.Import:
             hi = getattr(node, 'end_lineno', node.lineno) or node.lineno
             for a in node.names:
@@ -411,6 +416,43 @@ class Oracle(object):
         else:
             line, bcol = a.lineno, a.col_offset
         return (line, _charcol(self.lines, line, bcol))
+
+    # -- where an expression-level binding construct sits (evidence only) ---------------------
+    def hosts(self, b):
+        """(statement-level position, immediate expression position) hosting the lambda / comprehension /
+        walrus that makes binding b, e.g. ('AugAssign.value', 'Call.args'); None for statement-level bindings"""
+        if b.node is None or not (b.kind in ('comp', 'walrus') or
+                                  (b.kind.startswith('param') and b.site.kind == 'lambda')):
+            return None
+        if not hasattr(self, '_parent'):
+            self._parent = {}
+            for n in ast.walk(self.tree):
+                for f, v in ast.iter_fields(n):
+                    if isinstance(v, ast.AST):
+                        self._parent[id(v)] = (n, f)
+                    elif isinstance(v, list):
+                        for x in v:
+                            if isinstance(x, ast.AST):
+                                self._parent[id(x)] = (n, f)
+        cur = b.node
+        root_types = (ast.Lambda, ast.NamedExpr, ast.ListComp, ast.SetComp, ast.DictComp, ast.GeneratorExp)
+        while not isinstance(cur, root_types):
+            pf = self._parent.get(id(cur))
+            if pf is None:
+                return None
+            cur = pf[0]
+        pf = self._parent.get(id(cur))
+        if pf is None:
+            return None
+        expr_host = '%s.%s' % (type(pf[0]).__name__, pf[1])
+        stop = (ast.stmt, ast.arguments, ast.arg, ast.ExceptHandler, ast.withitem, ast.match_case)
+        while True:
+            pf = self._parent.get(id(cur))
+            if pf is None:
+                return None
+            if isinstance(pf[0], stop):
+                return '%s.%s' % (type(pf[0]).__name__, pf[1]), expr_host
+            cur = pf[0]
 
     # -- the rule of the property statement -------------------------------------------------
     def resolve(self, b):
@@ -490,12 +532,12 @@ def binding_kind_for_hist(b):
 # comparison
 
 def missing_label(b):
-    if b.unv:
-        return 'missing:inside-' + b.unv
     if b.via == 'comp-under-global':
         return 'missing:comp-var-under-global-decl'
     if b.via == 'nonlocal' and b.site.kind == 'class':
         return 'missing:nonlocal-in-class-body'
+    if b.unv:
+        return 'missing:inside-' + b.unv
     if b.rebound:
         return 'missing:outer-binding-rebound-in-nested-%s-that-reads-locals' % (
             'class-body' if b.rebound[0] == 'class' else b.rebound[0])
@@ -526,7 +568,13 @@ def _install_probe():
     return _PROBE
 
 
-def marginals(part, b):
+def marginals(part, b, orc=None):
+    h = orc.hosts(b) if orc is not None else None
+    if h:
+        part.hist('host_statement_position', h[0])
+        part.hist('host_expression_position', h[1])
+        if h[0].startswith('AugAssign') and b.expected:
+            part.count('reportable_bindings_inside_augmented_assignments')
     part.hist('binding_kind', binding_kind_for_hist(b))
     part.hist('scope_kind', b.scope_label())
     part.hist('name_shape', b.shape())
@@ -640,12 +688,17 @@ def compare(part, text, filename, projdir, origin, case_extra=None, histname='ma
 
         for r in list(unR):
             take(r, [b for b in unB if b.exact == (r[2], r[3])], 'exact')
+        # an exact repeat of a report already matched to a target / parameter (AST position) is a duplicate
+        early_dups = [r for r in unR if any(tuple(r) == tuple(r2) and b2.kind not in TEXTSEARCH_KINDS
+                                            for b2, r2, _ in pairs)]
+        for r in early_dups:
+            unR.remove(r)
         for r in list(unR):
             take(r, [b for b in unB if b.kind in TEXTSEARCH_KINDS and b.lo <= r[2] <= b.hi], 'line-span')
         for r in list(unR):
             take(r, [b for b in unB if b.kind not in TEXTSEARCH_KINDS and b.lo == r[2]], 'same-line')
-        dups = [r for r in unR if any(tuple(r) == tuple(r2) for _, r2, _ in pairs)]
-        for r in dups:
+        dups = early_dups + [r for r in unR if any(tuple(r) == tuple(r2) for _, r2, _ in pairs)]
+        for r in dups[len(early_dups):]:
             unR.remove(r)
         if exotic:
             for r in list(unR):
@@ -667,7 +720,7 @@ def compare(part, text, filename, projdir, origin, case_extra=None, histname='ma
                                  'line': orc.lines[r[2] - 1] if 0 < r[2] <= len(orc.lines) else None}, limit=50)
             cell = '%s|%s|%s' % (binding_kind_for_hist(b), b.scope_label(), b.shape())
             part.hist(histname, cell)
-            marginals(part, b)
+            marginals(part, b, orc)
             if how == 'position-mismatch':
                 viol('position-not-at-binding:' + b.kind,
                      '%s %r reported at %s, binding %s is at %s (lines %d-%d)' % (
@@ -699,7 +752,7 @@ def compare(part, text, filename, projdir, origin, case_extra=None, histname='ma
             part.count('bindings_compared')
             cell = '%s|%s|%s' % (binding_kind_for_hist(b), b.scope_label(), b.shape())
             part.hist(histname, cell)
-            marginals(part, b)
+            marginals(part, b, orc)
             if b.expected is None:
                 fig['expected_silent'] += 1
                 part.count('expected_silent')
@@ -735,9 +788,27 @@ def compare(part, text, filename, projdir, origin, case_extra=None, histname='ma
 # ---------------------------------------------------------------------------------------
 # workers
 
+EXPECTED_STMT_HOSTS = [
+    'AugAssign.value', 'AugAssign.target', 'Assign.value', 'Assign.targets', 'AnnAssign.annotation', 'AnnAssign.value',
+    'Expr.value', 'Return.value', 'Delete.targets', 'Raise.exc', 'Raise.cause', 'Assert.test', 'Assert.msg', 'If.test',
+    'While.test', 'For.iter', 'For.target', 'AsyncFor.iter', 'withitem.context_expr', 'withitem.optional_vars',
+    'ExceptHandler.type', 'Match.subject', 'match_case.guard', 'FunctionDef.decorator_list', 'FunctionDef.returns',
+    'AsyncFunctionDef.returns', 'ClassDef.decorator_list', 'ClassDef.bases', 'ClassDef.keywords', 'arguments.defaults',
+    'arguments.kw_defaults', 'arg.annotation']
+EXPECTED_EXPR_HOSTS = [
+    'Await.value', 'Yield.value', 'YieldFrom.value', 'FormattedValue.value', 'Subscript.slice', 'Slice.lower',
+    'Slice.upper', 'Slice.step', 'Call.args', 'keyword.value', 'Starred.value', 'Attribute.value', 'Dict.keys',
+    'Dict.values', 'List.elts', 'Tuple.elts', 'Set.elts', 'BinOp.left', 'BinOp.right', 'BoolOp.values',
+    'UnaryOp.operand', 'Compare.left', 'Compare.comparators', 'IfExp.test', 'IfExp.body', 'IfExp.orelse',
+    'Lambda.body', 'comprehension.iter', 'comprehension.ifs', 'ListComp.elt', 'SetComp.elt', 'GeneratorExp.elt',
+    'DictComp.key', 'DictComp.value', 'NamedExpr.value', 'AugAssign.value', 'Return.value', 'Expr.value']
+
+
 def work_gen(arg):
     seed, start, count = arg
     import random
+    import warnings
+    warnings.simplefilter('ignore')
     from vf import gen_unused
     part = core.Part()
     root = tempfile.mkdtemp(prefix='vf-')
@@ -814,6 +885,17 @@ def main(run):
                 inter.append(groups[m].pop(0))
         k += 1
     run.violations = inter
+    hs = run.hists.get('host_statement_position', {})
+    he = run.hists.get('host_expression_position', {})
+    run.extra['host_positions'] = {
+        'meaning': 'where the lambda / comprehension / walrus that makes a never-read, compared binding sits: nearest '
+                   'statement-level position and immediate expression parent',
+        'statement_level': dict(sorted(hs.items())), 'expression_level': dict(sorted(he.items())),
+        'expected_statement_level_with_zero_instances': sorted(k for k in EXPECTED_STMT_HOSTS if k not in hs),
+        'expected_expression_level_with_zero_instances': sorted(k for k in EXPECTED_EXPR_HOSTS if k not in he),
+    }
+    run.count('host_positions_covered', len([k for k in EXPECTED_STMT_HOSTS if k in hs]) +
+              len([k for k in EXPECTED_EXPR_HOSTS if k in he]))
     seen = set(run.hists.get('matrix', {}))
     cells = gen_unused.feasible_cells()
     zero = sorted(c for c in cells if c not in seen)
@@ -833,7 +915,8 @@ def main(run):
         require=('lint_calls', 'bindings_compared', 'reports_confirmed', 'silence_confirmed', 'expected_W01',
                  'expected_W02', 'generated_modules', 'real_files', 'matrix_cells_covered', 'star_names_resolved_by_supp',
                  'reportable_outer_bindings_conditionally_rebound_in_class_body_reading_locals',
-                 'bindings_skipped:scope-reads-locals', 'bindings_checked_although_a_nested_scope_reads_locals'),
+                 'bindings_skipped:scope-reads-locals', 'bindings_checked_although_a_nested_scope_reads_locals',
+                 'reportable_bindings_inside_augmented_assignments', 'host_positions_covered'),
         assumptions=[
             'never read = no ast.Name(id, Load) anywhere in the file (strings, __all__, attribute names do not count)',
             'a comprehension variable is owned by the function/lambda/class/module that contains the comprehension '
